@@ -55,6 +55,7 @@ def main():
     from vf import universe_e  # noqa: F401 (registers group E zones)
     from vf import universe_f  # noqa: F401 (registers group F zones)
     from vf import universe_g  # noqa: F401 (registers group G zones)
+    from vf import universe_h  # noqa: F401 (registers group H zones)
 
     for bp in sorted(glob.glob(os.path.join(env.VERIF, "baseline", "*.json.gz"))):
         name = os.path.basename(bp)[: -len(".json.gz")]
